@@ -179,12 +179,16 @@ Qed.
 
 Lemma lit_ok_float lg ip fp ex sfx :
   lit_ok lg (LFloat ip fp ex sfx) = true ->
-  fdigits_ok ip = true /\ nonempty ip = true /\ fdigits_ok fp = true /\ ex_ok ex = true /\ float_shape fp ex = true.
+  fdigits_ok ip = true /\ nonempty ip || nonempty fp = true /\ fdigits_ok fp = true /\ ex_ok ex = true /\ float_shape fp ex = true
+  /\ (lg = MRs -> nonempty ip = true).
 Proof.
   cbn [lit_ok]. intros H. repeat (apply andb_prop in H; destruct H as [H ?]).
-  unfold digits_ok in H. destruct ip as [|i ip']; [discriminate|].
-  repeat split; try assumption; try reflexivity.
-  destruct fp as [|f fp']; [reflexivity|]. match goal with X : digits_ok 10 (f :: fp') = true |- _ => exact X end.
+  assert (Hfp : fdigits_ok fp = true).
+  { destruct fp as [|f fp']; [reflexivity|]. match goal with X : digits_ok 10 (f :: fp') = true |- _ => exact X end. }
+  destruct ip as [|i ip'].
+  - destruct fp as [|f fp']; [destruct lg; discriminate|].
+    repeat split; try assumption; try reflexivity. intros ->. discriminate.
+  - unfold digits_ok in H. repeat split; try assumption; try reflexivity.
 Qed.
 
 (* ------------------------------------------------------------------ TypeScript: value of a literal *)
@@ -198,7 +202,7 @@ Proof.
     apply ts_extract_int; try assumption.
     cbn [lit_ok] in Hok. apply andb_prop in Hok. destruct Hok as [_ Hs]. exact Hs.
   - cbn [lit_raw] in Hr. inversion Hr. subst raw.
-    destruct (lit_ok_float _ _ _ _ _ Hok) as [Hi [Hn [Hf [He Hs]]]].
+    destruct (lit_ok_float _ _ _ _ _ Hok) as [Hi [Hn [Hf [He [Hs _]]]]].
     assert (E : sfx = "").
     { cbn [lit_ok] in Hok. apply andb_prop in Hok. destruct Hok as [_ Hx]. apply String.eqb_eq. exact Hx. }
     subst sfx. apply ts_extract_float; assumption.
@@ -235,7 +239,7 @@ Proof.
         destruct (String.eqb sfx ""), (suffix_in sfx int_suffixes); cbn in *; try reflexivity; try exact Hs; try discriminate. }
     destruct S as [us [s S]]. cbn [rs_node_type]. apply (rs_extract_int r up gs sfx us s); assumption.
   - cbn [lit_raw] in Hr. inversion Hr. subst raw.
-    destruct (lit_ok_float _ _ _ _ _ Hok) as [Hi [Hn [Hf [He _]]]].
+    destruct (lit_ok_float _ _ _ _ _ Hok) as [Hi [_ [Hf [He [_ Hn]]]]]. specialize (Hn eq_refl).
     cbn [lit_ok] in Hok. apply andb_prop in Hok. destruct Hok as [_ Hs].
     destruct (suffix_in_split sfx float_suffixes Hs) as [us [s S]].
     cbn [rs_node_type]. apply (rs_extract_float ip fp ex sfx us s); assumption.
